@@ -413,7 +413,11 @@ func c05Frame(p *core.Program, r *core.Report, rule string, optsOnly bool) {
 		if got != want && strings.Contains(got, "WriteBytes(") {
 			// the header is assembled in a byte buffer and written at once: this rule reads the header
 			// as a sequence of typed writes and cannot see into the buffer
-			r.Undec(rule, "io.(*DataOutputX).WriteHeader layout", p.Pos(wh.Decl.Pos()), fmt.Sprintf("header is emitted as %q: assembled in a buffer, not decided by this rule", got))
+			if why := c05HeaderBytes(p, wh); why == "" {
+				r.OK(rule, "io.(*DataOutputX).WriteHeader layout", p.Pos(wh.Decl.Pos()), "byte level: source, version, pcode and license hash big-endian, then the length-prefixed copy of the body taken before the reset")
+			} else {
+				r.Viol(rule, "io.(*DataOutputX).WriteHeader layout", p.Pos(wh.Decl.Pos()), fmt.Sprintf("header is emitted as %q; byte level: %s", got, why))
+			}
 		} else {
 			r.Check(copied && fresh && got == want && want != "", rule, "io.(*DataOutputX).WriteHeader layout", p.Pos(wh.Decl.Pos()),
 				"copies the body, resets, then "+want+"(copy)", fmt.Sprintf("header is emitted as %q (body copied before reset: %v, length-prefixed copy appended: %v); want %q", got, copied, fresh, want))
@@ -840,4 +844,223 @@ func c05HashGuard(p *core.Program, r *core.Report, rule string) {
 		}
 		r.Check(bad == "", rule, c, pos, "the hash is derived only for a non-empty tag map", "the hash is derived on a path that has not established a non-empty tag map: a pack without tags goes out with the hash of the empty map instead of 0 (the bytes differ from the reference encoding): "+bad)
 	}
+}
+
+// c05HeaderBytes decides the header layout at byte level for a WriteHeader that assembles the header
+// in a buffer (or through helpers): the statements of WriteHeader and of the same-receiver helpers it
+// calls are interpreted with the bit-vector engine, stream writes append to the emitted byte list, and
+// the list must be: source, version, pcode (8 bytes big-endian), license hash (8 bytes big-endian),
+// followed by WriteIntBytes of a copy of the buffer content that was taken before the buffer was reset.
+// "" = agrees.
+func c05HeaderBytes(p *core.Program, wh *core.FuncInfo) string {
+	info := wh.Pkg.TypesInfo
+	ip := &bits.Interp{P: p}
+	fr := ip.NewFrame(wh)
+	var params []types.Object
+	for _, f := range wh.Decl.Type.Params.List {
+		for _, n := range f.Names {
+			params = append(params, info.Defs[n])
+		}
+	}
+	if len(params) != 4 {
+		return "unexpected signature"
+	}
+	var hdr []bits.Vec
+	why := ""
+	order := 0
+	copyAt, resetAt, bodyAt := -1, -1, -1
+	var bodyArg ast.Expr
+	copies := map[types.Object]bool{} // locals holding a copy of the buffer content
+	recvOf := func(fi *core.FuncInfo) string { return recvName(fi) }
+	isBufBytes := func(e ast.Expr) bool {
+		s := stripSpaces(types.ExprString(e))
+		return strings.HasSuffix(s, ".buffer.Bytes()") || strings.HasSuffix(s, ".buffer.Bytes()...")
+	}
+	viaBuf := map[types.Object]bool{} // locals aliasing buffer.Bytes() (b := out.buffer.Bytes())
+	beBytes := func(v *bits.Value, n int) {
+		x := bits.Convert(v.V, v.Sign, 8*n)
+		for k := 0; k < n; k++ {
+			hdr = append(hdr, bits.Convert(bits.Shr(x, 8*(n-1-k), false), false, 8))
+		}
+	}
+	var walk func(fi *core.FuncInfo, f *bits.Frame, list []ast.Stmt, depth int)
+	walk = func(fi *core.FuncInfo, f *bits.Frame, list []ast.Stmt, depth int) {
+		rn := recvOf(fi)
+		finfo := fi.Pkg.TypesInfo
+		for _, st := range list {
+			if why != "" {
+				return
+			}
+			order++
+			// bookkeeping of the body copy
+			if as, ok := st.(*ast.AssignStmt); ok && len(as.Lhs) == 1 && len(as.Rhs) == 1 {
+				if id, ok := as.Lhs[0].(*ast.Ident); ok {
+					rhs := ast.Unparen(as.Rhs[0])
+					if isBufBytes(rhs) {
+						viaBuf[finfo.ObjectOf(id)] = true
+						continue
+					}
+					if call, ok := rhs.(*ast.CallExpr); ok {
+						if fid, ok := call.Fun.(*ast.Ident); ok {
+							switch fid.Name {
+							case "append":
+								// append([]byte(nil), out.buffer.Bytes()...)
+								if len(call.Args) == 2 && call.Ellipsis.IsValid() {
+									src := ast.Unparen(call.Args[1])
+									fromBuf := isBufBytes(src)
+									if sid, ok := src.(*ast.Ident); ok && viaBuf[finfo.ObjectOf(sid)] {
+										fromBuf = true
+									}
+									if fromBuf {
+										copies[finfo.ObjectOf(id)] = true
+										copyAt = order
+										continue
+									}
+								}
+							case "make":
+								continue // t := make([]byte, len(b)): filled by the copy below
+							}
+						}
+					}
+				}
+			}
+			if es, ok := st.(*ast.ExprStmt); ok {
+				if call, ok := es.X.(*ast.CallExpr); ok {
+					if fid, ok := call.Fun.(*ast.Ident); ok && fid.Name == "copy" && len(call.Args) == 2 {
+						src := ast.Unparen(call.Args[1])
+						fromBuf := isBufBytes(src)
+						if sid, ok := src.(*ast.Ident); ok && viaBuf[finfo.ObjectOf(sid)] {
+							fromBuf = true
+						}
+						if did, ok := ast.Unparen(call.Args[0]).(*ast.Ident); ok && fromBuf {
+							copies[finfo.ObjectOf(did)] = true
+							copyAt = order
+							continue
+						}
+					}
+					if sel, ok := call.Fun.(*ast.SelectorExpr); ok {
+						xs := stripSpaces(types.ExprString(sel.X))
+						if xs == rn+".buffer" && sel.Sel.Name == "Reset" {
+							resetAt = order
+							continue
+						}
+						if xs == rn {
+							arg := func() *bits.Value {
+								if len(call.Args) != 1 {
+									why = sel.Sel.Name + " with " + fmt.Sprint(len(call.Args)) + " arguments"
+									return nil
+								}
+								v := ip.Eval(f, call.Args[0], nil)
+								if v == nil {
+									why = "cannot evaluate " + types.ExprString(call.Args[0]) + ": " + f.Err()
+								}
+								return v
+							}
+							switch sel.Sel.Name {
+							case "WriteByte":
+								if v := arg(); v != nil && v.V != nil {
+									hdr = append(hdr, bits.Convert(v.V, false, 8))
+								}
+								continue
+							case "WriteShort":
+								if v := arg(); v != nil && v.V != nil {
+									beBytes(v, 2)
+								}
+								continue
+							case "WriteInt":
+								if v := arg(); v != nil && v.V != nil {
+									beBytes(v, 4)
+								}
+								continue
+							case "WriteLong":
+								if v := arg(); v != nil && v.V != nil {
+									beBytes(v, 8)
+								}
+								continue
+							case "WriteBytes":
+								if v := arg(); v != nil {
+									if v.B == nil || v.B.Len < 0 {
+										why = "WriteBytes of a buffer of unknown length"
+										return
+									}
+									for k := 0; k < v.B.Len; k++ {
+										hdr = append(hdr, v.B.Get(k))
+									}
+								}
+								continue
+							case "WriteIntBytes":
+								bodyAt = order
+								if len(call.Args) == 1 {
+									bodyArg = call.Args[0]
+									if id, ok := ast.Unparen(bodyArg).(*ast.Ident); ok && !copies[finfo.ObjectOf(id)] {
+										why = "the length-prefixed body `" + id.Name + "` is not a copy of the buffer content (it aliases the buffer that was just reset and is being overwritten by the header)"
+									}
+								}
+								continue
+							}
+							// an unexported helper on the same stream: followed with its parameters bound
+							if fn, _ := finfo.Uses[sel.Sel].(*types.Func); fn != nil && !fn.Exported() && depth < 3 {
+								if cfi := p.FuncOf(fn); cfi != nil && cfi.Decl.Body != nil {
+									nf := ip.NewFrame(cfi)
+									i := 0
+									for _, pf := range cfi.Decl.Type.Params.List {
+										for _, n := range pf.Names {
+											if i < len(call.Args) {
+												if v := ip.Eval(f, call.Args[i], nil); v != nil {
+													nf.Bind(cfi.Pkg.TypesInfo.Defs[n], v)
+												}
+											}
+											i++
+										}
+									}
+									walk(cfi, nf, cfi.Decl.Body.List, depth+1)
+									continue
+								}
+							}
+						}
+					}
+				}
+			}
+			if as, ok := st.(*ast.AssignStmt); ok && len(as.Lhs) == 1 {
+				if strings.HasPrefix(stripSpaces(types.ExprString(as.Lhs[0])), rn+".") {
+					continue // out.written = 0
+				}
+			}
+			ip.Exec(f, st)
+			if f.Err() != "" {
+				why = "outside the byte-level fragment: " + f.Err()
+				return
+			}
+		}
+	}
+	walk(wh, fr, wh.Decl.Body.List, 0)
+	if why != "" {
+		return why
+	}
+	var want []bits.Vec
+	want = append(want, bits.Input(params[0].Name(), 8), bits.Input(params[1].Name(), 8))
+	for _, po := range params[2:] {
+		x := bits.Input(po.Name(), 64)
+		for k := 0; k < 8; k++ {
+			want = append(want, bits.Convert(bits.Shr(x, 8*(7-k), false), false, 8))
+		}
+	}
+	if len(hdr) != len(want) {
+		return fmt.Sprintf("the header has %d bytes, want %d", len(hdr), len(want))
+	}
+	for k := range want {
+		if !bits.Equal(hdr[k], want[k]) {
+			return fmt.Sprintf("header byte %d is %s, want %s", k, hdr[k].String(), want[k].String())
+		}
+	}
+	switch {
+	case bodyAt < 0:
+		return "the body is not appended as a length-prefixed byte block"
+	case copyAt < 0 || resetAt < 0 || copyAt > resetAt:
+		return "the body is not copied out of the buffer before the buffer is reset"
+	case bodyAt < resetAt:
+		return "the body is appended before the buffer is reset"
+	}
+	_ = bodyArg
+	return ""
 }
